@@ -46,8 +46,8 @@ pub fn info() -> PropertyInfo {
         workers_quick: 8,
         workers_thorough: 16,
         address_space_limit: 0,
-        watchdog_quick_s: 900,
-        watchdog_thorough_s: 14_400,
+        watchdog_quick_s: 3_600,
+        watchdog_thorough_s: 28_800,
         run,
     }
 }
@@ -389,11 +389,16 @@ fn one_request(
 ) -> Result<(ProbeState, Reply, ProbeState), String> {
     let before = fx.probe();
     fx.set_request_clock();
-    let reply = fx.exchange(line);
+    let mut reply = fx.exchange(line);
     if let Reply::Timeout = reply {
-        env.infra("no reply within 20 s on an open connection".into());
+        env.infra("no reply within 180 s on an open connection".into());
     }
     let after = fx.probe();
+    if fx.fence_failed.get() {
+        env.infra("resource command record could not be synchronised within 600 s".into());
+        // the probes around this request are not trustworthy: drop the case
+        reply = Reply::Timeout;
+    }
     Ok((before, reply, after))
 }
 
@@ -408,7 +413,28 @@ fn describe(case: &GroupCase, cred: Cred) -> String {
     )
 }
 
+/// `check_group_once`, with one confirmation run when only the *handler outcome* (not the role
+/// decision) differed between two credentials: several handlers wait up to 250 ms for the
+/// resource thread, so on a badly overloaded machine one credential of a sweep can see
+/// "snapshot unavailable" where the others are served. A difference that does not reproduce
+/// on fresh fixtures is not reported.
 fn check_group(env: &Env, case: &GroupCase, probe: &mut Probe) -> Result<(), String> {
+    match check_group_once(env, case, probe) {
+        Err(e) if e.starts_with("(3) ") && (e.contains(" is served but ") || e.contains(" takes effect for ")) => {
+            let mut again = Probe::default();
+            match check_group_once(env, case, &mut again) {
+                Ok(()) => {
+                    probe.label("timing_retry_cleared");
+                    Ok(())
+                }
+                Err(e2) => Err(e2),
+            }
+        }
+        r => r,
+    }
+}
+
+fn check_group_once(env: &Env, case: &GroupCase, probe: &mut Probe) -> Result<(), String> {
     let cfg = case.cfg;
     let ty = case.ty.as_str();
     let known = env.known_to_dispatcher(ty);
@@ -1055,6 +1081,373 @@ fn check_history(env: &Env, case: &HistoryCase, probe: &mut Probe) -> Result<(),
     }
 }
 
+// ---------------------------------------------------------------------------------------
+// pairing histories: tokens minted through the endpoint (several within one clock second
+// and at distinct seconds), revoked by id / all at once, run out; after every step every
+// token ever seen is probed with a read request and a mutating request.
+// ---------------------------------------------------------------------------------------
+
+#[derive(Clone, Debug, serde::Serialize, serde::Deserialize)]
+enum PairOp {
+    /// `n` pair.start/pair.claim cycles at the current clock value
+    Mint { role: u8, n: u8 },
+    /// advance the injected clock: 0 = 1 s, 1 = 7 s, 2 = to 500 s before the oldest live
+    /// token runs out, 3 = to 10 s after the oldest live token has run out, 4 = to 10 s after
+    /// the youngest live token has run out
+    Tick { how: u8 },
+    /// pair.revoke of the id of the `idx`-th known token (ids as reported by pair.list)
+    RevokeIdOf { idx: u8 },
+    /// the same pair.revoke once more
+    RevokeAgain,
+    RevokeAll,
+}
+
+#[derive(Clone, Debug, serde::Serialize, serde::Deserialize)]
+struct PairHistory {
+    cfg: Cfg,
+    ops: Vec<PairOp>,
+}
+
+struct Tok {
+    name: String,
+    token: String,
+    /// role the token was minted with
+    role: Level,
+    /// id under which pair.list shows it
+    id: String,
+    expires_at: u64,
+    /// a pair.revoke that covered this token (by id or "all") was answered ok
+    revoked: bool,
+}
+
+fn pair_history_from_tape(r: &mut Reader) -> PairHistory {
+    let cfgs = domain::all_cfgs();
+    // the revoked/expired clauses of the property speak about a configured token: 3 of 4 there
+    let mut cfg = cfgs[r.pick(cfgs.len())];
+    if r.chance(3, 4) {
+        cfg.token_set = true;
+    }
+    let n = 2 + r.pick(7);
+    let mut ops = Vec::new();
+    // start with something to revoke
+    ops.push(PairOp::Mint { role: r.pick(3) as u8, n: 1 + r.pick(3) as u8 });
+    for _ in 0..n {
+        ops.push(match r.weighted(&[5, 4, 5, 2, 1]) {
+            0 => PairOp::Mint { role: r.pick(3) as u8, n: 1 + r.pick(3) as u8 },
+            1 => PairOp::Tick { how: r.weighted(&[4, 2, 1, 2, 1]) as u8 },
+            2 => PairOp::RevokeIdOf { idx: r.pick(16) as u8 },
+            3 => PairOp::RevokeAgain,
+            _ => PairOp::RevokeAll,
+        });
+    }
+    PairHistory { cfg, ops }
+}
+
+/// The fixed scenarios every run enumerates (for every configuration).
+fn pair_scenarios() -> Vec<(&'static str, Vec<PairOp>)> {
+    use PairOp::*;
+    vec![
+        // two / three tokens of one second share an id: revoking it covers all of them
+        ("same_second_2", vec![Mint { role: 2, n: 2 }, RevokeIdOf { idx: 5 }, RevokeAgain]),
+        ("same_second_3", vec![Mint { role: 1, n: 3 }, RevokeIdOf { idx: 6 }]),
+        ("same_second_revoke_first", vec![Mint { role: 2, n: 3 }, RevokeIdOf { idx: 4 }]),
+        // distinct seconds: the other token keeps working
+        ("distinct_seconds", vec![Mint { role: 2, n: 1 }, Tick { how: 0 }, Mint { role: 2, n: 1 }, RevokeIdOf { idx: 5 }, RevokeIdOf { idx: 4 }]),
+        // mixed: two of one second, one of the next
+        ("mixed", vec![Mint { role: 2, n: 2 }, Tick { how: 0 }, Mint { role: 1, n: 1 }, RevokeIdOf { idx: 6 }, Mint { role: 0, n: 2 }, RevokeIdOf { idx: 8 }]),
+        // revoke an id, then a NEW claim within the same second: that one is a live token
+        ("revoke_then_claim_same_second", vec![Mint { role: 2, n: 2 }, RevokeIdOf { idx: 5 }, Mint { role: 2, n: 2 }, RevokeIdOf { idx: 7 }, Mint { role: 1, n: 1 }]),
+        // the fixture's own tokens, by id (known tokens with an id are indexed: 0-3 the
+        // fixture's viewer/operator/engineer/revoked, 4.. the minted ones in order)
+        ("template_ids", vec![RevokeIdOf { idx: 2 }, RevokeIdOf { idx: 0 }, Mint { role: 0, n: 1 }]),
+        // running out interleaved with revocation
+        ("expiry_interleaved", vec![Mint { role: 2, n: 2 }, Tick { how: 2 }, Mint { role: 2, n: 2 }, RevokeIdOf { idx: 5 }, Tick { how: 3 }, RevokeIdOf { idx: 7 }, Mint { role: 1, n: 1 }, Tick { how: 3 }]),
+        ("expiry_then_revoke_dead_id", vec![Mint { role: 1, n: 2 }, Tick { how: 3 }, Tick { how: 3 }, RevokeIdOf { idx: 5 }, Mint { role: 2, n: 2 }, RevokeIdOf { idx: 7 }]),
+        ("revoke_all", vec![Mint { role: 2, n: 2 }, Tick { how: 1 }, Mint { role: 0, n: 1 }, RevokeAll, Mint { role: 2, n: 2 }, RevokeAll, RevokeAgain]),
+    ]
+}
+
+fn check_pair_history(env: &Env, case: &PairHistory, probe: &mut Probe) -> Result<(), String> {
+    let cfg = case.cfg;
+    let mut fx = match env.take(cfg, true) {
+        Ok(fx) => fx,
+        Err(e) => {
+            env.infra(format!("fixture: {e}"));
+            return Ok(());
+        }
+    };
+    let res = run_pair_history(env, &mut fx, case, probe);
+    env.put_back(fx, true);
+    match res {
+        Err(e) if e == "__timeout" => Ok(()),
+        Err(e) => Err(format!("pairing history [{}] {:?}\n  {e}", cfg.key(), case.ops)),
+        Ok(()) => {
+            probe.nontrivial(format!("pairhist|{}|{:?}", cfg.key(), case.ops).as_bytes());
+            Ok(())
+        }
+    }
+}
+
+fn run_pair_history(
+    env: &Env,
+    fx: &mut Fixture,
+    case: &PairHistory,
+    probe: &mut Probe,
+) -> Result<(), String> {
+    let cfg = case.cfg;
+    let admin: Option<&str> = if cfg.token_set { Some(ADMIN_TOKEN) } else { None };
+    let t = env.tpl.tokens.clone();
+    let mut now = fx.t_req;
+    // what pair.list says about the fixture's own tokens (id, expiry) - by token tail
+    let list = |env: &Env, fx: &mut Fixture| -> Result<Vec<J>, String> {
+        let s = send(env, fx, "pair.list", None, admin)?;
+        if !s.parsed.ok {
+            return Err(format!("pair.list by the administrator is not served: {}", cut(&s.raw, 200)));
+        }
+        Ok(serde_json::from_str::<J>(&s.raw)
+            .ok()
+            .and_then(|v| v["result"]["tokens"].as_array().cloned())
+            .unwrap_or_default())
+    };
+    let tail_of = |tok: &str| -> String {
+        let n = tok.chars().count();
+        tok.chars().skip(n.saturating_sub(4)).collect()
+    };
+    let entry_matches = |e: &J, tok: &str| -> bool {
+        e["tail"].as_str().map(|s| s.ends_with(&tail_of(tok))).unwrap_or(false)
+    };
+    let mut toks: Vec<Tok> = Vec::new();
+    {
+        let entries = list(env, fx)?;
+        let own = [
+            ("tpl_viewer", &t.viewer, Level::Viewer, false),
+            ("tpl_operator", &t.operator, Level::Operator, false),
+            ("tpl_engineer", &t.engineer, Level::Engineer, false),
+            ("tpl_revoked", &t.revoked, Level::Engineer, true),
+        ];
+        for (name, token, role, revoked) in own {
+            let e = entries.iter().find(|e| entry_matches(e, token));
+            let Some(e) = e else {
+                return Err(format!("pair.list does not show the fixture token {name}"));
+            };
+            toks.push(Tok {
+                name: name.to_string(),
+                token: token.clone(),
+                role,
+                id: e["id"].as_str().unwrap_or("").to_string(),
+                expires_at: e["expires_at"].as_u64().unwrap_or(0),
+                revoked,
+            });
+        }
+        // the run-out token: gone from the list, must stay refused
+        toks.push(Tok {
+            name: "tpl_expired".into(),
+            token: t.expired.clone(),
+            role: Level::Engineer,
+            id: String::new(),
+            expires_at: 0,
+            revoked: false,
+        });
+    }
+    let mut last_revoke: Option<String> = None;
+    let mut minted = 0usize;
+
+    // probe every token ever seen against the model
+    let sweep = |env: &Env, fx: &mut Fixture, toks: &[Tok], now: u64, after: &str, probe: &mut Probe| -> Result<(), String> {
+        for tk in toks {
+            let dead = tk.revoked || tk.expires_at < now;
+            let why = if tk.revoked { "revoked" } else { "run out" };
+            for (ty, params) in [
+                ("status", None),
+                ("io.write", Some(json!({"address": "%IX0.3", "value": "true"}))),
+            ] {
+                let s = send(env, fx, ty, params, Some(&tk.token))?;
+                if dead {
+                    if !cfg.token_set {
+                        // no auth token configured: the property makes no statement
+                        continue;
+                    }
+                    probe.label(format!("pairhist_probe=dead_{}", if tk.revoked { "revoked" } else { "expired" }));
+                    if s.parsed.ok
+                        || s.parsed.has_result
+                        || !s.changed.is_empty()
+                        || s.parsed.class != Class::Unauthorized
+                    {
+                        return Err(format!(
+                            "(1) after {after}: {ty} with the {why} pairing token {} (id {:?}, minted as {:?}) must be answered 'unauthorized' and change nothing, got {} changed {:?}",
+                            tk.name, tk.id, tk.role, cut(&s.raw, 200), s.changed
+                        ));
+                    }
+                    if s.raw.contains("zq_canary") || s.raw.contains("ZQRES") {
+                        return Err(format!("(1) after {after}: reply to the {why} token {} reveals runtime data: {}", tk.name, cut(&s.raw, 200)));
+                    }
+                } else {
+                    probe.label("pairhist_probe=live");
+                    let may_write = tk.role >= Level::Engineer;
+                    if ty == "status" || may_write {
+                        if !s.parsed.class.passed_role_gate() {
+                            return Err(format!(
+                                "after {after}: {ty} with the live pairing token {} (id {:?}, role {:?}, not covered by any revocation, expires {} > now {now}) is refused: {}",
+                                tk.name, tk.id, tk.role, tk.expires_at, cut(&s.raw, 200)
+                            ));
+                        }
+                    } else if s.parsed.class.passed_role_gate() || !s.changed.is_empty() || s.parsed.ok {
+                        return Err(format!(
+                            "(2) after {after}: io.write with the {:?} pairing token {} must be refused and change nothing, got {} changed {:?}",
+                            tk.role, tk.name, cut(&s.raw, 200), s.changed
+                        ));
+                    }
+                }
+            }
+        }
+        Ok(())
+    };
+
+    fx.t_req = now;
+    sweep(env, fx, &toks, now, "set-up", probe)?;
+    for op in &case.ops {
+        let after: String;
+        match op {
+            PairOp::Mint { role, n } => {
+                let (role_name, role_lvl) = match role % 3 {
+                    0 => ("viewer", Level::Viewer),
+                    1 => ("operator", Level::Operator),
+                    _ => ("engineer", Level::Engineer),
+                };
+                for _ in 0..(*n).clamp(1, 3) {
+                    if toks.len() >= 40 {
+                        break;
+                    }
+                    let s = send(env, fx, "pair.start", None, admin)?;
+                    if !s.parsed.ok {
+                        return Err(format!("pair.start by the administrator is not served: {}", cut(&s.raw, 200)));
+                    }
+                    let code = serde_json::from_str::<J>(&s.raw)
+                        .ok()
+                        .and_then(|v| v["result"]["code"].as_str().map(str::to_string))
+                        .unwrap_or_default();
+                    let s = send(env, fx, "pair.claim", Some(json!({"code": code, "role": role_name})), admin)?;
+                    if !s.parsed.ok {
+                        return Err(format!("pair.claim by the administrator with the fresh code is not served: {}", cut(&s.raw, 200)));
+                    }
+                    let token = serde_json::from_str::<J>(&s.raw)
+                        .ok()
+                        .and_then(|v| v["result"]["token"].as_str().map(str::to_string))
+                        .ok_or("pair.claim reply carries no token")?;
+                    // id and expiry as the endpoint reports them: the enabled entry with this
+                    // token's tail that no known live token accounts for
+                    let entries = list(env, fx)?;
+                    let e = entries
+                        .iter()
+                        .filter(|e| entry_matches(e, &token) && e["enabled"].as_bool() == Some(true))
+                        .last()
+                        .cloned()
+                        .ok_or_else(|| format!("pair.list shows no enabled entry for the token just claimed (tail {})", tail_of(&token)))?;
+                    minted += 1;
+                    toks.push(Tok {
+                        name: format!("minted{minted}_{role_name}@{now}"),
+                        token,
+                        role: role_lvl,
+                        id: e["id"].as_str().unwrap_or("").to_string(),
+                        expires_at: e["expires_at"].as_u64().unwrap_or(0),
+                        revoked: false,
+                    });
+                }
+                probe.label("pairhist_op=mint");
+                after = format!("minting {n} {role_name} token(s) at clock {now}");
+            }
+            PairOp::Tick { how } => {
+                let oldest_live = toks
+                    .iter()
+                    .filter(|t| !t.revoked && t.expires_at >= now)
+                    .map(|t| t.expires_at)
+                    .min();
+                let youngest_live = toks
+                    .iter()
+                    .filter(|t| !t.revoked && t.expires_at >= now)
+                    .map(|t| t.expires_at)
+                    .max();
+                now = match (how % 5, oldest_live) {
+                    (0, _) => now + 1,
+                    (1, _) => now + 7,
+                    (2, Some(e)) if e > now + 500 => e - 500,
+                    (3, Some(e)) => e + 10,
+                    (4, _) => youngest_live.map(|e| e + 10).unwrap_or(now + 3),
+                    _ => now + 3,
+                };
+                fx.t_req = now;
+                probe.label(format!("pairhist_op=tick{}", how % 5));
+                after = format!("advancing the clock to {now}");
+            }
+            PairOp::RevokeIdOf { .. } | PairOp::RevokeAgain | PairOp::RevokeAll => {
+                let id = match op {
+                    PairOp::RevokeIdOf { idx } => {
+                        let with_id: Vec<&Tok> = toks.iter().filter(|t| !t.id.is_empty()).collect();
+                        with_id[*idx as usize % with_id.len()].id.clone()
+                    }
+                    PairOp::RevokeAll => "all".to_string(),
+                    _ => match &last_revoke {
+                        Some(id) => id.clone(),
+                        None => continue,
+                    },
+                };
+                let s = send(env, fx, "pair.revoke", Some(json!({"id": id})), admin)?;
+                if !s.parsed.class.passed_role_gate() {
+                    return Err(format!("pair.revoke by the administrator is refused: {}", cut(&s.raw, 200)));
+                }
+                if s.parsed.ok {
+                    // a revocation the endpoint confirmed covers every token that exists now
+                    // under that id (all tokens for "all")
+                    for tk in toks.iter_mut() {
+                        if id == "all" || (!tk.id.is_empty() && tk.id == id) {
+                            tk.revoked = true;
+                        }
+                    }
+                    probe.label("pairhist_op=revoke_ok");
+                } else {
+                    probe.label("pairhist_op=revoke_not_found");
+                }
+                last_revoke = Some(id.clone());
+                after = format!("pair.revoke {id:?} ({})", if s.parsed.ok { "confirmed" } else { "not confirmed" });
+            }
+        }
+        sweep(env, fx, &toks, now, &after, probe)?;
+        // what pair.list shows as disabled must be dead for the model as well
+        let entries = list(env, fx)?;
+        for tk in &toks {
+            let shown_disabled = entries.iter().any(|e| {
+                entry_matches(e, &tk.token) && e["id"].as_str() == Some(tk.id.as_str()) && e["enabled"].as_bool() == Some(false)
+            });
+            let shown_enabled = entries.iter().any(|e| {
+                entry_matches(e, &tk.token) && e["id"].as_str() == Some(tk.id.as_str()) && e["enabled"].as_bool() == Some(true)
+            });
+            if shown_disabled && !shown_enabled && !tk.revoked && tk.expires_at >= now {
+                return Err(format!(
+                    "after {after}: pair.list shows {} (id {:?}) as disabled although no confirmed revocation covered it",
+                    tk.name, tk.id
+                ));
+            }
+        }
+    }
+    let same_second = {
+        let mut ids: Vec<&str> = toks.iter().filter(|t| t.name.starts_with("minted")).map(|t| t.id.as_str()).collect();
+        let n = ids.len();
+        ids.sort();
+        ids.dedup();
+        ids.len() < n
+    };
+    if same_second {
+        probe.label("pairhist=has_shared_id");
+    }
+    if toks.iter().any(|t| t.revoked && t.name.starts_with("minted")) {
+        probe.label("pairhist=revoked_minted_token");
+    }
+    if toks.iter().any(|t| !t.revoked && t.expires_at < now && t.name.starts_with("minted")) {
+        probe.label("pairhist=expired_minted_token");
+    }
+    Ok(())
+}
+
 fn run(ctx: &mut RunCtx) {
     install_panic_recorder();
     let tier = ctx.tier;
@@ -1238,6 +1631,33 @@ fn run(ctx: &mut RunCtx) {
     let cfgs = domain::all_cfgs();
     let strat = (0..cfgs.len(), 0..HISTORY_KINDS).prop_map(move |(c, kind)| HistoryCase { cfg: cfgs[c], kind });
     ctx.search("history", strat, tier.pick(96, 960), |c: &HistoryCase, p| check_history(&env, c, p));
+
+    // ---- pairing histories: fixed scenarios for every configuration, then generated ones
+    if ctx.only_replay.is_none() {
+        let mut i = 0usize;
+        for cfg in domain::all_cfgs() {
+            for (name, ops) in pair_scenarios() {
+                i += 1;
+                if i % ctx.nworkers.max(1) != ctx.worker {
+                    continue;
+                }
+                let case = PairHistory { cfg, ops };
+                let j = serde_json::to_value(&case).unwrap();
+                ctx.enumerated("pairhist", &j, |p| {
+                    p.label(format!("pairhist_scenario={name}"));
+                    check_pair_history(&env, &case, p)
+                });
+            }
+        }
+    }
+    let strat = tape_strategy(40).prop_map(|t| {
+        let mut r = Reader::new(&t);
+        pair_history_from_tape(&mut r)
+    });
+    ctx.search("pairhist", strat, tier.pick(240, 6_000), |c: &PairHistory, p| {
+        p.label("pairhist=generated");
+        check_pair_history(&env, c, p)
+    });
 
     env.shutdown();
     ctx.note(format!("fixtures built by this worker: {}", env.rebuilds.borrow()));
